@@ -11,6 +11,10 @@ FRAGS = [2, 3, 7, 50, 100, 199, 200, 500, 1200, 2048, 3000, 4093, 4094, 4095, 80
 
 def gen_session_cfg(rng, idx):
     cfg = _gen_session_cfg(rng, idx)
+    if idx % 9 == 4:
+        cfg["ns_auto"] = random.Random(cfg["rseed"]).choice([["full"], ["nxdomain", "full"], ["servfail", "headeronly", "full"], ["wrongtype", "full"],
+                                                             ["notresponse", "cut", "full"], ["silent", "nxdomain", "full"], ["headeronly", "full"]])
+        cfg["ns_ip"] = "192.0.2.55"
     cfg["sendfaults"] = idx % 4 == 2         # a quarter of the sessions see occasional sendto() failures on the server
     if idx % 7 == 3:
         # tunnel domains with labels of the maximum length (63) and short ones
@@ -49,6 +53,49 @@ class Session:
 BIND_PORT = 5353
 
 
+OPENDNS_IP = "208.67.222.222"      # what the shim's hosts table says resolver1.opendns.com is
+
+
+class ScriptedOpenDNS(kernel.Actor):
+    """resolver1.opendns.com as iodined -n auto / -l external sees it: the n-th datagram it receives is answered according to
+    script[n] (the last entry repeats): 'full' = A 192.0.2.55, 'nxdomain', 'servfail', 'headeronly', 'wrongtype' (a TXT record),
+    'notresponse' (QR clear), 'cut' (breaks off behind the question), 'silent'."""
+    def __init__(self, ip, script):
+        self.ip, self.n, self.script = ip, 0, list(script)
+        self.got = []
+
+    def on_datagram(self, src, dst, data):
+        self.got.append(bytes(data))
+        kind = self.script[min(self.n, len(self.script) - 1)]
+        self.n += 1
+        labels, qt = [b"myip", b"opendns", b"com"], 1
+        qid = struct.unpack(">H", bytes(data[:2]))[0] if len(data) >= 2 else 0
+        try:
+            m = proto.parse_msg(data)
+            labels, qt = m.qd[0][0], m.qd[0][1]
+        except (proto.ParseError, IndexError):
+            pass
+        full = proto.build_answer_raw(qid, labels, qt, [(1, bytes([192, 0, 2, 55]))])
+        if kind == "silent":
+            return
+        if kind == "nxdomain":
+            d = proto.build_answer_raw(qid, labels, qt, [], rcode=3, counts=(1, 0, 1, 0),
+                                       extra=b"\xc0\x11\x00\x06\x00\x01\x00\x00\x0e\x10\x00\x1a\x03ns1\xc0\x11\x04root\xc0\x11" + bytes(20))
+        elif kind == "servfail":
+            d = proto.build_answer_raw(qid, labels, qt, [], rcode=2)
+        elif kind == "headeronly":
+            d = full[:2] + b"\x81\x85" + bytes(8)
+        elif kind == "wrongtype":
+            d = proto.build_answer_raw(qid, labels, qt, [(16, b"\x0bv=spf1 -all"), (1, bytes([192, 0, 2, 55]))])
+        elif kind == "notresponse":
+            d = full[:2] + bytes([full[2] & 0x7F]) + full[3:]
+        elif kind == "cut":
+            d = full[:12 + len(proto.encode_name(labels)) + 4]
+        else:
+            d = full
+        self.kernel.transmit(dst, src, d)
+
+
 class FwdResolver(kernel.Actor):
     """The DNS server iodined -b hands other people's queries to: remembers what it was handed, answers when told to."""
     def __init__(self, ip):
@@ -83,7 +130,12 @@ def run_session(tag, cfg, seed, ops_filter=None, redeliver=True, setup_only=Fals
     extra = []
     if cfg.get("check_ip_off"):
         extra.append("-c")
-    if cfg.get("ns_ip"):
+    if cfg.get("ns_auto"):
+        # -n auto: the server asks resolver1.opendns.com for its own address while starting (up to three attempts)
+        s.opendns = ScriptedOpenDNS(OPENDNS_IP, cfg["ns_auto"])
+        k.add_actor(OPENDNS_IP, s.opendns)
+        extra += ["-n", "auto"]
+    elif cfg.get("ns_ip"):
         extra += ["-n", cfg["ns_ip"]]
     s.fwd = None
     if cfg.get("bind"):
@@ -102,6 +154,8 @@ def run_session(tag, cfg, seed, ops_filter=None, redeliver=True, setup_only=Fals
     else:
         s.srv = sim.server(domain=dom, extra=extra)
         s.server_domain = dom
+    if cfg.get("ns_auto"):
+        sim.run_until(lambda: s.srv.tun_fd is not None or not s.srv.alive(), 15 * US)
     if not s.srv.alive():
         s.why = "server-died-at-start"
         return s
@@ -306,6 +360,11 @@ def do_op(s, mc, op, rng):
             mc.ask(mc.domain, proto.T_NS, timeout_us=300000)
         elif which == 1:
             mc.ask([b"xy" + bytes([97 + rng.randrange(26)])] + mc.domain, proto.T_NS, timeout_us=300000)
+            if s.cfg.get("wild"):
+                # under a wildcard every first label is a tunnel domain of its own: delegations of other lengths get checked too
+                other = bytes(rng.choice(b"abcdefghijklmnopqrstuvwxyz0123456789") for _ in range(rng.choice([1, 2, 3, 5, 8, 20, 63])))
+                mc.ask([other] + mc.domain[1:], proto.T_NS, timeout_us=300000)
+                mc.ask([b"pq", other] + mc.domain[1:], proto.T_NS, timeout_us=300000)
         elif which == 2:
             mc.ask([rng.choice([b"ns", b"NS", b"nS"])] + mc.domain, proto.T_A, timeout_us=300000)
         elif which == 3:
